@@ -7,6 +7,8 @@ import (
 	"context"
 	"fmt"
 	"go/ast"
+	"go/token"
+	"sort"
 	"strconv"
 	"strings"
 	"sync"
@@ -31,54 +33,214 @@ func main() {
 
 func flat(s string) string { return strings.Join(strings.Fields(s), " ") }
 
-func stmts(f *hc.Facts, lean, dir, fn string) {
-	fd := f.FuncDecl(dir, fn)
+// pingShape reads the structure of Conn.Ping / Conn.pingDelayDisconnect that the model interprets:
+// registration before the write, deferred removal, and the cases of the final select as
+// (channel, result) pairs — channel 0 = the registered pong channel, 1 = ctx.Done(), 9 = other;
+// result 0 = `return nil`, 1 = `return ctx.Err()`, 9 = anything else (fails closed).
+func pingShape(f *hc.Facts, lean, fn, request string) {
+	fd := f.FuncDecl("mtproto", fn)
+	bad := func(why string) {
+		f.Missing(lean+"Cases", "mtproto."+fn+": "+why)
+		f.Missing(lean+"RegistersBeforeWrite", "mtproto."+fn+": "+why)
+	}
 	if fd == nil || fd.Body == nil {
-		f.Missing(lean, dir+"."+fn+" not found")
+		bad("not found")
 		return
 	}
-	var parts []string
-	for _, st := range fd.Body.List {
-		s := flat(f.Src(st))
-		if strings.HasPrefix(s, "c.log.") || strings.HasPrefix(s, "logger.") {
-			continue
+	regAt, deferAt, writeAt, selAt := -1, -1, -1, -1
+	chanVar := ""
+	var sel *ast.SelectStmt
+	for i, st := range fd.Body.List {
+		src := flat(f.Src(st))
+		switch x := st.(type) {
+		case *ast.AssignStmt:
+			if len(x.Lhs) == 1 && len(x.Rhs) == 1 && flat(f.Src(x.Rhs[0])) == "c.pong(pingID)" {
+				regAt, chanVar = i, f.Src(x.Lhs[0])
+			}
+		case *ast.DeferStmt:
+			if src == "defer c.removePong(pingID)" {
+				deferAt = i
+			}
+		case *ast.IfStmt:
+			if x.Init != nil && strings.HasPrefix(flat(f.Src(x.Init)), "err := c.writeServiceMessage(ctx, &mt."+request+"{") {
+				writeAt = i
+			}
+		case *ast.SelectStmt:
+			selAt, sel = i, x
 		}
-		parts = append(parts, s)
 	}
-	f.Str(lean, strings.Join(parts, " ; "), "statements of "+dir+"."+fn+" (log statements dropped)")
+	if sel == nil || chanVar == "" {
+		bad("registration or select not found")
+		return
+	}
+	var cases []string
+	for _, cl := range sel.Body.List {
+		cc := cl.(*ast.CommClause)
+		ch, res := "9", "9"
+		if cc.Comm != nil {
+			switch flat(f.Src(cc.Comm)) {
+			case "<-" + chanVar:
+				ch = "0"
+			case "<-ctx.Done()":
+				ch = "1"
+			}
+		}
+		if len(cc.Body) == 1 {
+			switch flat(f.Src(cc.Body[0])) {
+			case "return nil":
+				res = "0"
+			case "return ctx.Err()":
+				res = "1"
+			}
+		}
+		cases = append(cases, "("+ch+", "+res+")")
+	}
+	// nothing after the select may return something else
+	if selAt != len(fd.Body.List)-1 {
+		cases = append(cases, "(9, 9)")
+	}
+	f.Raw("def " + lean + "Cases : List (Nat × Nat) := [" + strings.Join(cases, ", ") + "] -- select of mtproto." + fn + ": (channel 0 pong/1 ctx.Done/9 other, result 0 nil/1 ctx.Err()/9 other)")
+	f.Bool(lean+"RegistersBeforeWrite", regAt >= 0 && deferAt == regAt+1 && writeAt > deferAt && selAt > writeAt,
+		"mtproto."+fn+": pong := c.pong(pingID); defer c.removePong(pingID); write; select")
+}
+
+// linear resolves a duration expression of pingLoop into coefficients of (c.pingInterval,
+// c.pingTimeout), looking through local `x := …` definitions.
+func linear(f *hc.Facts, fd *ast.FuncDecl, e ast.Expr, depth int) (ci, ct int, ok bool) {
+	switch x := e.(type) {
+	case *ast.ParenExpr:
+		return linear(f, fd, x.X, depth)
+	case *ast.SelectorExpr:
+		switch flat(f.Src(x)) {
+		case "c.pingInterval":
+			return 1, 0, true
+		case "c.pingTimeout":
+			return 0, 1, true
+		}
+	case *ast.BinaryExpr:
+		if x.Op == token.ADD {
+			a, b, ok1 := linear(f, fd, x.X, depth)
+			c, d, ok2 := linear(f, fd, x.Y, depth)
+			return a + c, b + d, ok1 && ok2
+		}
+	case *ast.Ident:
+		if depth > 3 {
+			return 0, 0, false
+		}
+		var def ast.Expr
+		ast.Inspect(fd.Body, func(n ast.Node) bool {
+			if as, ok := n.(*ast.AssignStmt); ok && as.Tok == token.DEFINE && len(as.Lhs) == 1 && len(as.Rhs) == 1 && f.Src(as.Lhs[0]) == x.Name {
+				def = as.Rhs[0]
+			}
+			return true
+		})
+		if def != nil {
+			return linear(f, fd, def, depth+1)
+		}
+	}
+	return 0, 0, false
 }
 
 func facts(f *hc.Facts) {
-	stmts(f, "pingBody", "mtproto", "Conn.Ping")
-	stmts(f, "pingDelayDisconnectBody", "mtproto", "Conn.pingDelayDisconnect")
-	stmts(f, "handlePongBody", "mtproto", "Conn.handlePong")
-	stmts(f, "pongBody", "mtproto", "Conn.pong")
-	stmts(f, "removePongBody", "mtproto", "Conn.removePong")
-	// pingLoop: the ping of a tick runs under context.WithTimeout(ctx, c.pingTimeout) and its
-	// failure is returned (wrapped) from the loop
-	timeout, ret, pingCall := false, false, false
-	if fd := f.FuncDecl("mtproto", "Conn.pingLoop"); fd != nil {
-		ast.Inspect(fd.Body, func(n ast.Node) bool {
+	pingShape(f, "ping", "Conn.Ping", "PingRequest")
+	pingShape(f, "pingDelay", "Conn.pingDelayDisconnect", "PingDelayDisconnectRequest")
+
+	// handlePong: under pingMux, look the channel up under the pong's ping id; close and delete it
+	// only if it is there
+	hp := f.FuncDecl("mtproto", "Conn.handlePong")
+	lookup, guarded := false, false
+	if hp != nil {
+		ast.Inspect(hp.Body, func(n ast.Node) bool {
 			switch x := n.(type) {
-			case *ast.CallExpr:
-				s := flat(f.Src(x))
-				if s == "context.WithTimeout(ctx, c.pingTimeout)" {
-					timeout = true
+			case *ast.AssignStmt:
+				if flat(f.Src(x)) == "ch, ok := c.ping[pong.PingID]" {
+					lookup = true
 				}
-				if s == "c.pingDelayDisconnect(ctx, int(delay.Seconds()))" {
-					pingCall = true
-				}
-			case *ast.ReturnStmt:
-				if flat(f.Src(x)) == `return errors.Wrap(err, "disconnect (pong missed)")` {
-					ret = true
+			case *ast.IfStmt:
+				if flat(f.Src(x.Cond)) == "ok" && x.Else == nil {
+					var b []string
+					for _, st := range x.Body.List {
+						b = append(b, flat(f.Src(st)))
+					}
+					sort.Strings(b)
+					guarded = strings.Join(b, " ; ") == "close(ch) ; delete(c.ping, pong.PingID)"
 				}
 			}
 			return true
 		})
 	}
-	f.Bool("pingLoopUsesTimeout", timeout, "pingLoop wraps the tick's ping in context.WithTimeout(ctx, c.pingTimeout)")
-	f.Bool("pingLoopPings", pingCall, "pingLoop calls c.pingDelayDisconnect(ctx, …)")
-	f.Bool("pingLoopReturnsError", ret, `pingLoop returns errors.Wrap(err, "disconnect (pong missed)")`)
+	closesElsewhere := 0
+	for _, fn := range []string{"Conn.Ping", "Conn.pingDelayDisconnect", "Conn.pong", "Conn.removePong", "Conn.pingLoop"} {
+		if fd := f.FuncDecl("mtproto", fn); fd != nil {
+			ast.Inspect(fd.Body, func(n ast.Node) bool {
+				if ce, ok := n.(*ast.CallExpr); ok && f.Src(ce.Fun) == "close" {
+					closesElsewhere++
+				}
+				return true
+			})
+		}
+	}
+	f.Bool("handlePongClosesRegistered", lookup && guarded && hp != nil && lockSection(f, hp, "c.pingMux", "c.ping"),
+		"handlePong: inside pingMux, ch, ok := c.ping[pong.PingID]; if ok { close(ch); delete(c.ping, pong.PingID) }")
+	f.Nat("otherChannelCloses", closesElsewhere, "close(…) calls in Ping/pingDelayDisconnect/pong/removePong/pingLoop")
+	pg, rp := f.FuncDecl("mtproto", "Conn.pong"), f.FuncDecl("mtproto", "Conn.removePong")
+	reg := pg != nil && strings.Contains(flat(f.Src(pg.Body)), "c.ping[pingID] = ch") && strings.Contains(flat(f.Src(pg.Body)), "ch := make(chan struct{})") && lockSection(f, pg, "c.pingMux", "c.ping")
+	rem := rp != nil && strings.Contains(flat(f.Src(rp.Body)), "delete(c.ping, pingID)") && lockSection(f, rp, "c.pingMux", "c.ping")
+	f.Bool("pongRegistersFreshChannel", reg, "pong: a fresh channel is stored under c.ping[pingID] inside pingMux")
+	f.Bool("removePongDeletes", rem, "removePong: delete(c.ping, pingID) inside pingMux")
+
+	// pingLoop: how long a tick's ping may wait, as coefficients of (pingInterval, pingTimeout);
+	// likewise the disconnect_delay handed to the server; the error is returned
+	pl := f.FuncDecl("mtproto", "Conn.pingLoop")
+	waitOK, delayOK, ret, onTick := false, false, false, false
+	if pl != nil {
+		ast.Inspect(pl.Body, func(n ast.Node) bool {
+			switch x := n.(type) {
+			case *ast.CallExpr:
+				fn := flat(f.Src(x.Fun))
+				if fn == "context.WithTimeout" && len(x.Args) == 2 && flat(f.Src(x.Args[0])) == "ctx" {
+					if ci, ct, ok := linear(f, pl, x.Args[1], 0); ok {
+						waitOK = true
+						f.Nat("pingWaitCoeffInterval", ci, "context.WithTimeout(ctx, "+f.Src(x.Args[1])+") in pingLoop: coefficient of c.pingInterval")
+						f.Nat("pingWaitCoeffTimeout", ct, "… coefficient of c.pingTimeout")
+					}
+				}
+				if fn == "c.pingDelayDisconnect" && len(x.Args) == 2 {
+					// int(<d>.Seconds())
+					if cv, ok := x.Args[1].(*ast.CallExpr); ok && f.Src(cv.Fun) == "int" && len(cv.Args) == 1 {
+						if sc, ok := cv.Args[0].(*ast.CallExpr); ok {
+							if se, ok := sc.Fun.(*ast.SelectorExpr); ok && se.Sel.Name == "Seconds" {
+								if ci, ct, ok := linear(f, pl, se.X, 0); ok {
+									delayOK = true
+									f.Nat("disconnectDelayCoeffInterval", ci, "disconnect_delay = int(("+f.Src(se.X)+").Seconds()): coefficient of c.pingInterval")
+									f.Nat("disconnectDelayCoeffTimeout", ct, "… coefficient of c.pingTimeout")
+								}
+							}
+						}
+					}
+				}
+			case *ast.ReturnStmt:
+				if flat(f.Src(x)) == `return errors.Wrap(err, "disconnect (pong missed)")` {
+					ret = true
+				}
+			case *ast.CommClause:
+				if x.Comm != nil && flat(f.Src(x.Comm)) == "<-ticker.C()" {
+					onTick = true
+				}
+			}
+			return true
+		})
+	}
+	if !waitOK {
+		f.Missing("pingWaitCoeffInterval", "context.WithTimeout(ctx, <linear in pingInterval/pingTimeout>) not found in pingLoop")
+		f.Missing("pingWaitCoeffTimeout", "…")
+	}
+	if !delayOK {
+		f.Missing("disconnectDelayCoeffInterval", "c.pingDelayDisconnect(ctx, int(<d>.Seconds())) not found in pingLoop")
+		f.Missing("disconnectDelayCoeffTimeout", "…")
+	}
+	f.Bool("pingLoopPingsOnTick", onTick, "pingLoop pings on <-ticker.C() of c.clock.Ticker(c.pingInterval)")
+	f.Bool("pingLoopReturnsError", ret, `pingLoop returns errors.Wrap(err, "disconnect (pong missed)") when the ping fails`)
 	// Run starts pingLoop in the task group and returns the group's error
 	inGroup, waits := false, false
 	if fd := f.FuncDecl("mtproto", "Conn.Run"); fd != nil {
@@ -98,6 +260,34 @@ func facts(f *hc.Facts) {
 	}
 	f.Bool("runStartsPingLoop", inGroup, `Run: g.Go("pingLoop", c.pingLoop)`)
 	f.Bool("runReturnsGroupError", waits, "Run: if err := g.Wait(); err != nil { return … }")
+}
+
+// lockSection: every statement mentioning `expr` lies between a top-level mu.Lock() and the
+// matching mu.Unlock() (explicit or deferred).
+func lockSection(f *hc.Facts, fd *ast.FuncDecl, mu, expr string) bool {
+	if f.LockCovers(fd, mu, expr) {
+		return true
+	}
+	lock, unlock := -1, -1
+	for i, st := range fd.Body.List {
+		switch flat(f.Src(st)) {
+		case mu + ".Lock()":
+			if lock < 0 {
+				lock = i
+			}
+		case mu + ".Unlock()":
+			unlock = i
+		}
+	}
+	if lock < 0 || unlock < lock {
+		return false
+	}
+	for i, st := range fd.Body.List {
+		if (i < lock || i > unlock) && strings.Contains(f.Src(st), expr) {
+			return false
+		}
+	}
+	return true
 }
 
 // ---------------------------------------------------------------------------------- transport
@@ -220,6 +410,9 @@ type ltsRun struct {
 	snaps  []string
 	pongAt map[int64][]int // positions of pong actions per id
 	failed bool
+	// aborted: handling a pong panicked; handlePong holds pingMux without defer, so the connection's
+	// mutex stays locked and nothing on this connection may be touched any more
+	aborted bool
 }
 
 func (l *ltsRun) line() string { return "lts " + strings.Join(l.trace, " ") }
@@ -276,14 +469,38 @@ func (l *ltsRun) await(p int) error {
 	return nil
 }
 
-func (l *ltsRun) pong(id int64) error {
-	target, ok := l.reg[id]
-	delete(l.reg, id)
+// deliver hands one pong to handleMessage; a panic there (e.g. closing a closed channel) is a
+// violation: a duplicated pong must be harmless.
+func (l *ltsRun) deliver(id int64) {
+	defer func() {
+		if p := recover(); p != nil {
+			l.fail("pong-panic", fmt.Sprintf("handling a pong with id %d panicked: %v", id, p))
+			l.aborted = true
+		}
+	}()
 	if err := mtproto.VerifC43HandleMessage(l.conn, 1, encode(&mt.Pong{MsgID: 4, PingID: id})); err != nil {
 		l.fail("handle-pong-error", err.Error())
 	}
-	l.pongAt[id] = append(l.pongAt[id], len(l.trace))
-	l.record(fmt.Sprintf("p%d", id))
+}
+
+// pong delivers a pong (twice in a row when `twice`: the duplicate arrives before the waiting Ping
+// had a chance to run) and then waits for the ping it releases.
+func (l *ltsRun) pong(id int64, twice bool) error {
+	target, ok := l.reg[id]
+	delete(l.reg, id)
+	n := 1
+	if twice {
+		n = 2
+	}
+	for k := 0; k < n; k++ {
+		l.deliver(id)
+		if l.aborted {
+			l.trace = append(l.trace, fmt.Sprintf("p%d", id))
+			return nil
+		}
+		l.pongAt[id] = append(l.pongAt[id], len(l.trace))
+		l.record(fmt.Sprintf("p%d", id))
+	}
 	if ok && !l.pings[target].returned {
 		return l.await(target)
 	}
@@ -337,7 +554,7 @@ func runLTS(c *hc.Ctx, r *hc.RNG) (line, impl string, nontrivial bool, err error
 	cancelled := map[int]int{}
 	steps := r.Range(1, 14)
 	kinds := map[string]int{}
-	for i := 0; i < steps; i++ {
+	for i := 0; i < steps && !l.aborted; i++ {
 		var live []int
 		for p, pc := range l.pings {
 			if !pc.returned {
@@ -371,7 +588,11 @@ func runLTS(c *hc.Ctx, r *hc.RNG) (line, impl string, nontrivial bool, err error
 					kinds["pong-matching"]++
 				}
 			}
-			if err := l.pong(id); err != nil {
+			twice := r.Chance(30)
+			if twice {
+				kinds["pong-sent-twice-in-a-row"]++
+			}
+			if err := l.pong(id, twice); err != nil {
 				return l.line(), "", false, err
 			}
 		default:
@@ -385,6 +606,12 @@ func runLTS(c *hc.Ctx, r *hc.RNG) (line, impl string, nontrivial bool, err error
 				return l.line(), "", false, err
 			}
 		}
+	}
+	if l.aborted { // the failure is recorded; release what can be released and leave the connection alone
+		for _, pc := range l.pings {
+			pc.cancel()
+		}
+		return l.line(), "", false, nil
 	}
 	// a ping still waiting must really be waiting; then end its context
 	for p, pc := range l.pings {
@@ -443,6 +670,16 @@ type loopResult struct {
 	late     bool
 }
 
+// safeHandle delivers a server message; a panic is reported as an error (and poisons the connection).
+func safeHandle(conn *mtproto.Conn, e bin.Encoder) (err error) {
+	defer func() {
+		if p := recover(); p != nil {
+			err = fmt.Errorf("panic while handling %T: %v", e, p)
+		}
+	}()
+	return mtproto.VerifC43HandleMessage(conn, 1, encode(e))
+}
+
 func runLoop(seed uint64, lc loopCase, pingTimeout time.Duration) (res loopResult, herr error) {
 	r := hc.NewRNG(seed)
 	var key crypto.Key
@@ -490,7 +727,10 @@ func runLoop(seed uint64, lc loopCase, pingTimeout time.Duration) (res loopResul
 		if time.Since(w.at) > pingTimeout/2 {
 			res.late = true
 		}
-		_ = mtproto.VerifC43HandleMessage(conn, 1, encode(&mt.Pong{MsgID: 4, PingID: w.pingID}))
+		if e := safeHandle(conn, &mt.Pong{MsgID: 4, PingID: w.pingID}); e != nil && strings.Contains(e.Error(), "panic") {
+			res.note = e.Error()
+			return res, nil
+		}
 		lastID = w.pingID
 		res.outcomes = append(res.outcomes, "o")
 	}
@@ -504,10 +744,19 @@ func runLoop(seed uint64, lc loopCase, pingTimeout time.Duration) (res loopResul
 	}
 	switch lc.final {
 	case "foreign":
-		_ = mtproto.VerifC43HandleMessage(conn, 1, encode(&mt.Pong{MsgID: 4, PingID: w.pingID ^ 1}))
-		_ = mtproto.VerifC43HandleMessage(conn, 1, encode(&mt.Pong{MsgID: 4, PingID: int64(r.U64())}))
+		if e := safeHandle(conn, &mt.Pong{MsgID: 4, PingID: w.pingID ^ 1}); e != nil && strings.Contains(e.Error(), "panic") {
+			res.note = e.Error()
+			return res, nil
+		}
+		if e := safeHandle(conn, &mt.Pong{MsgID: 4, PingID: int64(r.U64())}); e != nil && strings.Contains(e.Error(), "panic") {
+			res.note = e.Error()
+			return res, nil
+		}
 	case "duplicate":
-		_ = mtproto.VerifC43HandleMessage(conn, 1, encode(&mt.Pong{MsgID: 4, PingID: lastID}))
+		if e := safeHandle(conn, &mt.Pong{MsgID: 4, PingID: lastID}); e != nil && strings.Contains(e.Error(), "panic") {
+			res.note = e.Error()
+			return res, nil
+		}
 	case "cancel":
 		cancel()
 	}
@@ -519,6 +768,94 @@ func runLoop(seed uint64, lc loopCase, pingTimeout time.Duration) (res loopResul
 	if lc.final != "cancel" {
 		res.outcomes = append(res.outcomes, "m")
 	}
+	return res, nil
+}
+
+// ---------------------------------------------------------------------------------- part C: how long a missed pong is tolerated
+
+// lateness measures how late the machine delivers a 5 ms tick right now (max over the window):
+// the yardstick for every timing bound below.
+type lateness struct {
+	stop chan struct{}
+	done chan time.Duration
+}
+
+func startLateness() *lateness {
+	l := &lateness{stop: make(chan struct{}), done: make(chan time.Duration, 1)}
+	go func() {
+		var worst time.Duration
+		t := time.NewTicker(5 * time.Millisecond)
+		defer t.Stop()
+		last := time.Now()
+		for {
+			select {
+			case now := <-t.C:
+				if d := now.Sub(last) - 5*time.Millisecond; d > worst {
+					worst = d
+				}
+				last = now
+			case <-l.stop:
+				l.done <- worst
+				return
+			}
+		}
+	}()
+	return l
+}
+
+func (l *lateness) end() time.Duration { close(l.stop); return <-l.done }
+
+type timingResult struct {
+	input        string
+	waited       time.Duration // from the moment the unanswered ping was written until Run ended
+	worstLate    time.Duration
+	runErr       error
+	ended        bool
+	conclusive   bool
+	delay        int
+}
+
+// runTiming: a connection whose keep-alive ping is never answered.  Run must end pingTimeout after
+// the ping was written — not earlier (deadlines never fire early) and not later than that plus a
+// slack scaled by the machine's measured lateness.  The interval is several times the timeout, so
+// that waiting interval+timeout (or the interval alone) instead is far outside the slack.
+func runTiming(seed uint64, interval, timeout time.Duration) (res timingResult, herr error) {
+	r := hc.NewRNG(seed)
+	var key crypto.Key
+	r.Read(key[:])
+	ak := key.WithID()
+	tr := &capture{key: ak, cipher: crypto.NewServerCipher(r.Fork()), frames: make(chan written, 64)}
+	conn := mtproto.New(func(ctx context.Context) (transport.Conn, error) { return tr, nil }, mtproto.Options{
+		Random: r.Fork(), Key: ak, Cipher: crypto.NewClientCipher(r.Fork()), CompressThreshold: -1,
+		PingInterval: interval, PingTimeout: timeout,
+	})
+	ctx, cancel := context.WithCancel(context.Background())
+	defer cancel()
+	runDone := make(chan error, 1)
+	var endedAt time.Time
+	go func() {
+		err := conn.Run(ctx, func(ctx context.Context) error { <-ctx.Done(); return ctx.Err() })
+		endedAt = time.Now()
+		runDone <- err
+	}()
+	res.input = fmt.Sprintf("loop-timing interval=%s timeout=%s no-pong", interval, timeout)
+	var w written
+	select {
+	case w = <-tr.frames:
+	case err := <-runDone:
+		return res, fmt.Errorf("Run ended before the first ping: %v", err)
+	case <-time.After(interval + watchdog):
+		return res, fmt.Errorf("keep-alive loop wrote no ping within interval + watchdog")
+	}
+	res.delay = w.delay
+	lat := startLateness()
+	select {
+	case res.runErr = <-runDone:
+		res.ended = true
+		res.waited = endedAt.Sub(w.at)
+	case <-time.After(interval + timeout + watchdog):
+	}
+	res.worstLate = lat.end()
 	return res, nil
 }
 
@@ -618,6 +955,71 @@ func run(c *hc.Ctx) error {
 		}
 	}
 
+	// ---- part C: timing of a missed pong, two-sided (interval = 5 × timeout)
+	{
+		interval, timeout := 1500*time.Millisecond, 300*time.Millisecond
+		nT := c.N(3, 8)
+		tres := make([]timingResult, nT)
+		terr := make([]error, nT)
+		var twg sync.WaitGroup
+		for i := 0; i < nT; i++ {
+			seed := r.U64()
+			twg.Add(1)
+			go func(i int) {
+				defer twg.Done()
+				for attempt := 0; attempt < 3; attempt++ {
+					tres[i], terr[i] = runTiming(seed+uint64(attempt), interval, timeout)
+					if terr[i] != nil || !tres[i].ended {
+						return
+					}
+					slack := 600*time.Millisecond + 20*tres[i].worstLate
+					over := tres[i].waited - timeout
+					// conclusive unless the machine itself was late by a comparable amount
+					tres[i].conclusive = over <= slack || tres[i].worstLate < 50*time.Millisecond
+					if tres[i].conclusive {
+						return
+					}
+				}
+			}(i)
+		}
+		twg.Wait()
+		for i, x := range tres {
+			if terr[i] != nil {
+				return terr[i]
+			}
+			c.Eval(x.input+fmt.Sprintf(" #%d", i), true)
+			c.Count("timing.no-pong")
+			if !x.ended {
+				c.Fail("missed-pong-run-not-ended", x.input, "Run was still running long after the ping timeout")
+				continue
+			}
+			if x.runErr == nil || !strings.Contains(x.runErr.Error(), "pong missed") {
+				c.Fail("missed-pong-run-other-error", x.input, fmt.Sprintf("Run returned %v", x.runErr))
+			}
+			if x.waited < timeout-20*time.Millisecond {
+				c.Fail("missed-pong-gave-up-early", x.input, fmt.Sprintf("Run ended %s after the unanswered ping was written; the ping timeout is %s", x.waited, timeout))
+			}
+			slack := 600*time.Millisecond + 20*x.worstLate
+			if x.waited > timeout+slack {
+				if x.conclusive {
+					c.Fail("missed-pong-tolerated-too-long", x.input, fmt.Sprintf("Run ended %s after the unanswered ping was written; the ping timeout is %s (interval %s; worst timer lateness of the machine meanwhile %s)", x.waited, timeout, interval, x.worstLate))
+				} else {
+					c.Count("timing.inconclusive(machine-too-late)")
+					c.Note("timing scenario inconclusive: machine lateness %s", x.worstLate)
+				}
+			}
+			if x.delay != int((interval + timeout).Seconds()) {
+				c.Fail("disconnect-delay", x.input, fmt.Sprintf("ping_delay_disconnect announced %d s, interval+timeout = %s", x.delay, interval+timeout))
+			}
+			lines = append(lines, fmt.Sprintf("tick %d %d -", interval.Milliseconds(), timeout.Milliseconds()))
+			got := "missed-late"
+			if x.waited <= timeout+slack && x.waited >= timeout-20*time.Millisecond {
+				got = fmt.Sprintf("missed %d", timeout.Milliseconds())
+			}
+			impls = append(impls, got)
+		}
+	}
+
 	outs, err := c.Drv.Batch(lines)
 	if err != nil {
 		return err
@@ -628,7 +1030,7 @@ func run(c *hc.Ctx) error {
 		}
 	}
 	c.Res.Rule = "LTS traces: 1..14 scheduled steps on one connection — Ping calls (ids from a pool of 1..4 values, so ids collide), pongs with matching / foreign / neighbouring / duplicate / late ids, context cancellations; every return of a Ping is observed and becomes a trace action, the registered ping ids are compared with the model after every action; non-trivial = at least 2 pings and one matching pong. Keep-alive: Conn.Run over an in-memory transport (real clock, 40 ms ping interval), 0..3 acknowledged ticks followed by a missed / foreign / duplicate pong or a cancellation; distinct = distinct input line"
-	c.PartialNote("the ping timeout of pingLoop is context.WithTimeout on the real clock: the keep-alive part runs with a 1.2 s timeout (longer on retry) and only asserts that Run ends with the pong-missed error within the timeout plus a 60 s watchdog; it does not measure how soon")
+	c.PartialNote("the ping timeout of pingLoop is context.WithTimeout on the real clock, which the harness cannot replace: the timing part measures real time (interval 1.5 s, timeout 0.3 s) and asserts timeout-20ms ≤ end ≤ timeout + 0.6 s + 20×(worst timer lateness measured meanwhile); a run during which the machine itself was late by ≥ 50 ms and over the bound is retried and, if still so, reported as inconclusive rather than as a failure")
 	c.PartialNote("when a ping's channel is closed and its context has ended at the same time, Go's select may take either branch; the harness never creates that race (it waits for the return after a matching pong), the model allows both actions")
 	c.PartialNote("goroutine scheduling below the granularity of the LTS actions (pingMux critical sections, channel close, select) is not exhibited")
 	return nil
